@@ -13,7 +13,7 @@ use weechess_core::{
 };
 use weechess_engine::eval::Evaluator;
 
-pub const COUNTERS: [u64; 10] = [0, 1, 49, 50, 99, 100, 101, 5949, (1 << 31) - 1, (1 << 32) - 1];
+pub const COUNTERS: [u64; 16] = [0, 1, 49, 50, 99, 100, 101, 5949, (1 << 31) - 1, (1 << 32) - 1, (1 << 63) - 1, 1 << 63, 9_999_999_999_999_999_999, 10_000_000_000_000_000_000, u64::MAX - 1, u64::MAX];
 
 fn moves_of(st: &State) -> Vec<OMove> {
     let mut v: Vec<OMove> = MoveGenerator::compute_legal_moves(st).moves().iter().map(|m| to_omove(&m.0)).collect();
@@ -130,7 +130,13 @@ pub fn run(ctx: &Ctx, rep: &mut Report) {
     // positions reached by play, advanced in lock-step through weechess' own successors
     let mut n = ctx.n(80_000, 3_000_000);
     while n > 0 && ctx.time_left() {
-        let start = if rng.gen_bool(0.5) { Pos::start() } else { corpus[rng.gen_range(0..corpus.len())].clone() };
+        let mut start = if rng.gen_bool(0.5) { Pos::start() } else { corpus[rng.gen_range(0..corpus.len())].clone() };
+        if rng.gen_bool(0.15) {
+            // play that starts from extreme counters (the oracle saturates at the top like the engine)
+            start.half = COUNTERS[rng.gen_range(8..COUNTERS.len())];
+            start.full = COUNTERS[rng.gen_range(8..COUNTERS.len())];
+            rep.count("games_started_with_extreme_counters", 1);
+        }
         let plies = rng.gen_range(10..200);
         let mut pos = start.clone();
         let mut st = to_state(&start);
@@ -189,6 +195,9 @@ pub fn run(ctx: &Ctx, rep: &mut Report) {
                     rep.count(if q.wtm { "ep_on_rank_6" } else { "ep_on_rank_3" }, 1);
                 }
                 if q.half >= (1 << 31) - 1 || q.full >= (1 << 31) - 1 {
+                    if q.half >= 10_000_000_000_000_000_000 || q.full >= 10_000_000_000_000_000_000 {
+                        rep.count("twenty_digit_counters", 1);
+                    }
                     rep.count("extreme_counters", 1);
                 }
                 if rep.samples.len() < 4 && sub.count_ones() >= 3 && q.ep.is_some() {
